@@ -8,12 +8,12 @@ From Kit Require Export C12.Model C12.Spec Lib.CheckLib.
 Inductive act :=
 | SRun                          (* call Run in a new goroutine *)
 | SReturnRunner (i : nat)       (* tell the [Free] runner i to return its result *)
-| SParentCancel                 (* cancel the context given to Run *)
+| SParentCancel (e : err)       (* the context given to Run ends, reporting e (0 Canceled, -3 DeadlineExceeded) *)
 | SClose                        (* call Close in a new goroutine *)
 | SAddCloser (r : option err)   (* AddCloser of a closer that will return r *)
 | SReturnCloser (j : nat)       (* tell user closer j to return its result *)
 | SFire                         (* let the grace period elapse *)
-| SAdd (b : beh).               (* plain manager: Add a runner *)
+| SAdd (b : beh).               (* Add a runner (RunnerManager.Add / RunnerCloserManager.Add) *)
 
 (* ------------------------------------------------------------------------------------------ *)
 (* closer manager: apply an action, then let everything that can happen on its own happen      *)
@@ -38,7 +38,8 @@ Definition candidates (s : cstate) : list cev :=
   [CInner RRunReturn; CClosing] ++ map CCloserStart nc ++
   [CFatal; CCloseFatalCh; CFatalQuit] ++ map CCollectCloser nc ++ [CRunReturn] ++
   map CCloseStep (seq 0 (length (closes s))) ++
-  map CAddCloserAppend (seq 0 (length (addcl s))).
+  map CAddCloserAppend (seq 0 (length (addcl s))) ++
+  map CAddAppend (seq 0 (length (cadds s))).
 
 Fixpoint settle (v : variant) (rounds : nat) (s : cstate) : cstate :=
   match rounds with
@@ -56,12 +57,12 @@ Definition do_act (v : variant) (grace : bool) (s : cstate) (a : act) : cstate :
     (match a with
      | SRun => try_c v s CRunCas
      | SReturnRunner i => try_c v s (CInner (RRunnerReturn i))
-     | SParentCancel => try_c v s (CInner RCtxCancel)
+     | SParentCancel e => try_c v s (CInner (RCtxCancel e))
      | SClose => try_c v (try_c v s CCloseBegin) (CCloseStep (length (closes s)))
      | SAddCloser r => try_c v (try_c v s (CAddCloserCheck r)) (CAddCloserAppend (length (addcl s)))
      | SReturnCloser j => try_c v s (CCloserReturn (pidx grace j))
      | SFire => try_c v s CFire
-     | SAdd _ => s
+     | SAdd b => try_c v (try_c v s (CAddCheck b)) (CAddAppend (length (cadds s)))
      end).
 
 Definition exec_c (v : variant) (grace : bool) (bs : list beh) (cls : list (option err))
@@ -90,7 +91,7 @@ Definition do_act_r (v : variant) (s : rstate) (a : act) : rstate :=
     (match a with
      | SRun => try_r v s RRunCas
      | SReturnRunner i => try_r v s (RRunnerReturn i)
-     | SParentCancel => try_r v s RCtxCancel
+     | SParentCancel e => try_r v s (RCtxCancel e)
      | SAdd b => try_r v (try_r v s (RAddCheck b)) (RAddAppend (length (r_adds s)))
      | _ => s
      end).
@@ -124,8 +125,17 @@ Definition outcome_c (grace : bool) (nr nc : nat) (s : cstate) : outcome :=
       (run_rejected s)
       (map (fun k => match k with KRet e => Some e | _ => None end) (closes s))
       (map (fun a => match a with ACAccepted _ => true | _ => false end) (addcl s))
-      []
-      (map (fun i => match nth_error (r_procs (inner s)) i with Some _ => 1 | None => 0 end)
+      (map (fun k => match k with
+                     | CARefused => false
+                     | CAPassed a => match nth_error (r_adds (inner s)) a with
+                                     | Some (AAccepted _) => true
+                                     | _ => false
+                                     end
+                     end) (cadds s))
+      (map (fun i => match nth_error (r_procs (inner s)) i with
+                     | Some p => match p_beh p with CloseRunner => 0 | _ => 1 end
+                     | None => 0
+                     end)
            (seq 0 nr))
       (map (fun j => match nth_error (c_procs s) (pidx grace j) with
                      | Some p => c_starts p
@@ -214,7 +224,7 @@ Definition cfg_of (c : case) : cfg :=
 Definition model_agrees (c : case) : bool :=
   match c with
   | CMgr grace bs cls script t =>
-      let nr := length bs in
+      let nr := n_runners bs script in
       let nc := n_user_closers cls script in
       eqb_outcome (outcome_c grace nr nc (exec_c Fixed grace bs cls script)) (outcome_t nr nc t)
   | CPlain bs script t =>
@@ -230,9 +240,11 @@ Definition oracle (c : case) : bool :=
   end.
 
 (* 0 = agree and oracle holds; 1 = model and implementation differ; 2 = the implementation's
-   observed behaviour violates the spec. *)
+   observed behaviour violates the spec (and the model reproduces what it did); 3 = it violates
+   the spec and the model does not reproduce it. *)
 Definition check_case (c : case) : Z :=
-  if negb (oracle c) then 2 else if negb (model_agrees c) then 1 else 0.
+  if negb (oracle c) then (if model_agrees c then 2 else 3)
+  else if negb (model_agrees c) then 1 else 0.
 
 Definition run_cases (cs : list (Z * case)) : list (Z * Z) := failures check_case cs.
 
@@ -258,7 +270,7 @@ Proof. vm_compute. reflexivity. Qed.
 (* Canceled not filtered: the oracle objects *)
 Example ex_canceled_kept :
   check_case (CPlain [Free (Some 0%Z)] [SRun; SReturnRunner 0]
-                     [ORunCall 0; ORunnerStart 0; ORunnerRet 0 (Some 0%Z); ORunRet 0 [0%Z]]) = 2%Z.
+                     [ORunCall 0; ORunnerStart 0; ORunnerRet 0 (Some 0%Z); ORunRet 0 [0%Z]]) = 3%Z.
 Proof. vm_compute. reflexivity. Qed.
 
 (* fatal: grace elapsed while closer 0 had not returned *)
@@ -270,7 +282,7 @@ Proof. vm_compute. reflexivity. Qed.
 
 Example ex_fatal_missing :
   check_case (CMgr true [] [None] [SRun; SFire; SReturnCloser 0]
-                   [ORunCall 0; OCloserStart 0; OFire; OCloserRet 0 None; ORunRet 0 []]) = 2%Z.
+                   [ORunCall 0; OCloserStart 0; OFire; OCloserRet 0 None; ORunRet 0 []]) = 3%Z.
 Proof. vm_compute. reflexivity. Qed.
 
 (* Close before Run *)
